@@ -166,11 +166,21 @@ def clone(m):
     forward with grad) cannot be deep-copied by torch: they are copied as detached clones (same values)"""
     torch, _ = T()
     memo = {}
+
+    def scan(v, depth):
+        if isinstance(v, torch.Tensor):
+            if v.grad_fn is not None:
+                memo[id(v)] = v.detach().clone()
+        elif depth and isinstance(v, dict) and not isinstance(v, torch.nn.Module):
+            for w in list(v.values())[:200]:
+                scan(w, depth - 1)
+        elif depth and isinstance(v, (list, tuple)):
+            for w in v[:200]:
+                scan(w, depth - 1)
     for mod in m.modules():
-        for d in (mod.__dict__, mod._buffers):
-            for v in d.values():
-                if isinstance(v, torch.Tensor) and v.grad_fn is not None:
-                    memo[id(v)] = v.detach().clone()
+        for k, v in mod.__dict__.items():
+            if k not in ('_modules', '_parameters'):
+                scan(v, 2)
     return copy.deepcopy(m, memo)
 
 
@@ -267,25 +277,26 @@ def run_sequence(cfg, ops, deep=True):
 
 
 def dfs(cfg, alphabet, depth, first_ops=None):
-    """all op sequences over `alphabet` of length <= depth (whose first op is in first_ops), each node reached by
-    applying ONE op to a deep copy of its parent (global RNG state copied too).  -> [(path, obs, fp)], root first"""
+    """all op sequences over `alphabet` of length <= depth (whose first op is in first_ops).  Every history is run
+    from scratch on ONE freshly built live object (no copy of the model under test is involved; only the read-only
+    probes of the fingerprint work on copies).  -> [(path, obs of the last op, fp after it)], root first"""
     torch, _ = T()
-    m, x = build(cfg)
-    torch.manual_seed(SEED_RUN)
-    for op in cfg.get('prefix', ()):
-        apply_op(m, x, op, cfg['method'])
-    out = [((), None, fingerprint(m, x))]
 
-    def visit(par, rs, path):
+    def run(path):
+        m, x = build(cfg)
+        torch.manual_seed(SEED_RUN)
+        ob = None
+        for op in tuple(cfg.get('prefix', ())) + path:
+            ob = apply_op(m, x, op, cfg['method'])
+        return (path, ob if path else None, fingerprint(m, x))
+    out = [run(())]
+
+    def visit(path):
         for op in (alphabet if (path or first_ops is None) else first_ops):
-            c = clone(par)
-            torch.random.set_rng_state(rs)
-            ob = apply_op(c, x, op, cfg['method'])
-            fp = fingerprint(c, x)
-            out.append((path + (op,), ob, fp))
+            out.append(run(path + (op,)))
             if len(path) + 1 < depth:
-                visit(c, torch.random.get_rng_state(), path + (op,))
-    visit(m, torch.random.get_rng_state(), ())
+                visit(path + (op,))
+    visit(())
     return out
 
 
